@@ -12,8 +12,30 @@ from vlib import core
 TRUST = ("Lean 4.33 kernel; axioms at most propext/Classical.choice/Quot.sound (audited per run); hand-written model "
          "Model/Trainers.lean tied to the C++ by the differential correspondence (generator-bounded); ")
 MANIFEST = dict(
-  text="(filled in below)",
-  note=TRUST,
+  text=("Theorems (Props/C15.lean) over exact rational arithmetic, for every dataset (any n, d, label dimension, rank-deficient / constant "
+        "features, d > n) and every partition into batches: linear regression — the accumulated normal equations A*beta = X^T L hold iff the "
+        "gradient of 1/2|(X|1)beta-L|^2 + 1/2 lambda |W|^2 vanishes (linreg_normal_equations), the gradient is the true one (exact second-order "
+        "expansion), and for lambda >= 0 this is equivalent to beta being a global minimiser (linreg_normal_equations_iff_minimiser); the trained model "
+        "is optimal given the semi-definite solver's specification (linreg_train_optimal); mean/variance/covariance and the regression system do not "
+        "depend on the batch partition (meanvar_batch_independent, linreg_batch_independent); unit-variance normaliser: output mean 0 / variance 1 on "
+        "non-constant columns, constant columns mapped to 0 (unitvariance_output, sqrt specified); unit-interval normaliser: range [0,1] attained, "
+        "constant columns to 1/2 for the repaired trainer, and a witness theorem that the pinned source maps a constant column v to 1/2 - v (F-C15-1); "
+        "whitening: covariance t*I given the factor specification C*Cov*C^T = I (whitening_output, linear_image_covariance); PCA: orthonormal directions "
+        "=> decoder(encoder(x)) is idempotent, its residual is orthogonal to all directions and it is the closest point of mean+span (pca_projection); "
+        "small-sample branch: eigenvectors of XX^T/l lift to eigenvectors of the covariance with the same eigenvalue and squared norm l*lambda "
+        "(pca_small_sample_agrees); weighted LDA statistics are invariant under scaling all weights (weights_scale_invariant). "
+        "The model (Model/Trainers.lean) is tied to the real trainers on every run by a differential correspondence on integer datasets with explicit "
+        "batch partitions: values the model determines are compared EXACTLY when FE_INEXACT stayed clear during the Shark call and with relative "
+        "tolerance 1e-11 otherwise; results behind sqrt / the pivoted Cholesky solver / the eigen-solver are checked against their specification "
+        "(A*beta = X^T L, s*s = var, W*Cov*W^T = t*I, Cov*v = lambda*v, V^T V = I, z*Cov = m) in exact rational arithmetic on the returned doubles "
+        "(relative 1e-9); plus an independent plain-loop property oracle in the harness (gradient, output mean/variance/range/covariance, "
+        "orthonormality, projection, batch-partition and weight-scale invariance)."),
+  note=TRUST + "NOT proved: existence of a solution of the normal equations (consistency is a hypothesis of linreg_train_optimal; the driver's own "
+       "Gauss-Jordan solver exhibits one on every generated system), the specifications of sqrt/log/eigen-solver/pivoted Cholesky (hypotheses, checked at "
+       "run time on the returned values), that ZCA's Q*D^(-1/2)*Q^T satisfies the factor specification, lda_bayes_rule (LDA is covered by the "
+       "correspondence only: class means, pooled covariance, solve specification, bias vs log prior), FisherLDA (not modelled), floating-point rounding. "
+       "PCA whitening and toleranced comparisons are behind the eigen-solver (toleranced mode). Findings F-C15-1..5 (findings_proposed/C15.md): the check "
+       "reports VIOLATION on the unpatched tree and is green on a tree with findings_proposed/C15.patch applied.",
   technique="Lean 4 proofs over exact rational arithmetic (all sizes, dimensions, batch partitions) + differential correspondence with the C++ trainers (ASan/UBSan, FE_INEXACT-gated exact comparison)",
   design="§6 C15")
 
@@ -185,7 +207,7 @@ def run_lines(ctx, exes, drv, lines, timeout=900):
         try:
             p = subprocess.run([exe], input=text, stdout=subprocess.PIPE, stderr=subprocess.PIPE, text=True,
                                errors="replace", timeout=timeout, env=env)
-            out, rc, err = p.stdout.splitlines(), p.returncode, p.stderr
+            out, rc, err = [l[2:] for l in p.stdout.splitlines() if l.startswith("@ ")], p.returncode, p.stderr
         except subprocess.TimeoutExpired:
             out, rc, err = [], -99, "TIMEOUT"
         for k, i in enumerate(idx):
